@@ -2,7 +2,7 @@
 
 request : {"dir": scratch dir, "schema": {relpath: text} | text, "queries": {relpath: text} | text | null,
            "config": {client settings overrides}, "files": {relpath: text} (extra files, e.g. scalars module),
-           "strategy": "client" | "graphqlschema"}
+           "strategy": "client" | "graphqlschema", "add_sys_path": bool (scenario dir importable: plugin modules)}
 response: {"ok": bool, "exc": [class qualified name, message] | null, "files": [reported file list] | null,
            "stdout": str, "target": path}
 Runs with cwd = the scenario dir (relative paths in the config are relative to it)."""
@@ -37,6 +37,8 @@ def handle(req):
     d = req["dir"]
     os.makedirs(d, exist_ok=True)
     os.chdir(d)
+    if req.get("add_sys_path") and d not in sys.path:  # plugin modules written next to the scenario (C15)
+        sys.path.insert(0, d)
     for rel, text in (req.get("files") or {}).items():
         p = os.path.join(d, rel)
         os.makedirs(os.path.dirname(p), exist_ok=True)
